@@ -6,6 +6,7 @@ from hypothesis import strategies as st
 from vf import meta as vmeta, sandbox, target
 from vf.engine import Outcome, Violation
 from vf.gen import trees
+from vf.props import common
 from vf.ref import hashing
 
 ID = "C01"
@@ -43,6 +44,7 @@ def strategy(tier):
             "P_form": draw(st.sampled_from(["int", "exp", "str", "expstr"])),
             "route": route, "progress": draw(st.sampled_from([0, 0, 1, 2])),
             "spelling": draw(st.sampled_from(["abs", "abs", "rel", "dot-rel"])),
+            "again": draw(common.second_act()),
         }
     return case()
 
@@ -160,11 +162,29 @@ def run_case(case):
                     extra += ["--piece-length", str(spell_P(P, case["P_form"]))]
                 target.create_cli(1, root, out, extra)
             m = vmeta.Meta.from_file(out)
+            first = judge(m, tree, P)
+            if first.violation is None and case.get("again"):
+                tree2 = common.apply_second_act(tree, os.path.join(scr, "src", tree["name"]), case["again"])
+                if tree2 is not None:
+                    out2 = os.path.join(scr, "out", "again.torrent")
+                    try:
+                        if case["route"] == "lib":
+                            target.create_lib("TorrentFile", root, out2, **kw)
+                        else:
+                            target.create_cli(1, root, out2, extra)
+                        second = judge(vmeta.Meta.from_file(out2), tree2, P)
+                    except Exception as e:
+                        return Outcome(Violation("C01:again:exception:%s" % type(e).__name__, "second create raised %r" % (e,)), True)
+                    if second.violation is not None:
+                        v = second.violation
+                        return Outcome(Violation("C01:again:" + v.sig.split(":", 1)[1], "second create in the same process after rewriting one file in place: " + v.msg), True,
+                                       list(first.classes) + ["second-act"])
+                    return Outcome(None, first.nontrivial, list(first.classes) + ["second-act"])
+            return first
         except Exception as e:  # any failure on a valid input is a violation of "a v1 metafile created from any..."
             return Outcome(Violation("C01:exception:%s" % type(e).__name__, "create raised %r" % (e,)), True, ["exception"])
         finally:
             os.chdir(old_cwd)
-        return judge(m, tree, P)
 
 
 def judge(m, tree, P_req):
